@@ -2,6 +2,7 @@ package sched
 
 import (
 	"fmt"
+	"strings"
 	"time"
 )
 
@@ -60,7 +61,7 @@ func (x *Explorer) runOne(prefix []int, expect []string) *Result {
 	case "livelock":
 		keys = append(keys, "livelock")
 	case "panic":
-		keys = append(keys, fmt.Sprintf("panic: %v", res.Panic))
+		keys = append(keys, PanicKey(res))
 	}
 	if h.Check != nil {
 		keys = append(keys, h.Check(res)...)
@@ -90,6 +91,34 @@ func (x *Explorer) Explore() {
 	x.explore(nil, nil, 0)
 }
 
+// PanicKey names a panic by its value and the innermost repository function (outside logging / fs helpers / the
+// harness) on the panicking stack, so that known findings can be matched by call site.
+func PanicKey(res *Result) string {
+	site := ""
+	for _, l := range strings.Split(res.Stack, "\n") {
+		const mod = "github.com/apache/skywalking-banyandb/"
+		if !strings.HasPrefix(l, mod) {
+			continue
+		}
+		f := l[len(mod):]
+		if strings.HasPrefix(f, "pkg/verif/") || strings.HasPrefix(f, "banyand/verif/") || strings.HasPrefix(f, "pkg/logger") || strings.HasPrefix(f, "pkg/fs.") {
+			continue
+		}
+		if i := strings.LastIndex(f, "("); i > 0 {
+			f = f[:i]
+		}
+		f = strings.ReplaceAll(f, "[...]", "")
+		site = f
+		break
+	}
+	return fmt.Sprintf("panic: %v @ %s", res.Panic, site)
+}
+
+// shardLevel: executions with at most shardLevel deviations from the default schedule are run by every worker (and
+// counted by worker 0 only); the subtrees below them are dealt out round-robin. With 1, a worker repeats only the
+// O(points) executions of levels 0 and 1.
+const shardLevel = 1
+
 func sigs(r *Result) []string {
 	s := make([]string, len(r.Points))
 	for i := range r.Points {
@@ -110,7 +139,7 @@ func (x *Explorer) explore(prefix []int, expect []string, level int) {
 	if x.HarnessErr != "" {
 		return
 	}
-	counted := x.Shards <= 1 || level > 2 || x.Shard == 0
+	counted := x.Shards <= 1 || level > shardLevel || x.Shard == 0
 	if counted {
 		x.Executions++
 		x.ByPreempt[res.Preempts]++
@@ -131,7 +160,7 @@ func (x *Explorer) explore(prefix []int, expect []string, level int) {
 				if cost > x.Bound {
 					break
 				}
-				if level == 2 && x.Shards > 1 {
+				if level == shardLevel && x.Shards > 1 {
 					x.subtree++
 					if x.subtree%x.Shards != x.Shard {
 						continue
